@@ -261,6 +261,8 @@ func buildAPI() *apifu.API {
 	tconnN.Type = graphql.NewNonNullType(tconn.Type)
 	fields["tN"] = &tconnN
 
+	addMatrixFields(fields, iArg, nodeType)
+
 	for n, f := range fields {
 		nodeType.Fields[n] = f
 	}
